@@ -206,8 +206,10 @@ class FutureResult(object):
         try:
             # Call the method
             result = method(*args, **kwargs)
-        except Exception as ex:
+        except BaseException as ex:
             # Something went wrong: propagate to the event and to the caller
+            # (BaseException: a method ending with sys.exit() or an
+            # interruption is done too, its result must not be awaited)
             self._done_event.raise_exception(ex)
             raise
         else:
